@@ -34,6 +34,7 @@ type driver struct {
 	tier   string
 	rnd    *gal.Rand
 	refs   map[string]string // rev|pkgs -> reference digest (build without cache)
+	refRes map[string]workerResult
 	ncache int
 	stats  map[string]any
 	tab    string
@@ -72,6 +73,7 @@ func (d *driver) ref(rev int, pkgs []string) string {
 		os.Exit(2)
 	}
 	d.refs[k] = r.Res.Digest
+	d.refRes[k] = r.Res
 	return r.Res.Digest
 }
 
@@ -119,7 +121,9 @@ func (d *driver) addListing(cache, class string, desc map[string]any) {
 func (d *driver) checkBuild(what string, rev int, pkgs []string, cache string, r runOut, desc map[string]any) {
 	want := d.ref(rev, pkgs)
 	d.w.setRev(rev)
-	desc["result"] = r.Res
+	slim := r.Res
+	slim.InstalledDB = ""
+	desc["result"] = slim
 	if !r.Res.OK {
 		tag, bad := d.triage(cache, "build-with-cache-fails")
 		desc["what"], desc["bad"] = what, bad
@@ -128,9 +132,58 @@ func (d *driver) checkBuild(what string, rev int, pkgs []string, cache string, r
 	}
 	if r.Res.Digest != want {
 		tag, bad := d.triage(cache, "digest-differs-with-cache")
+		if tag == "digest-differs-with-cache" {
+			if sl := d.onlySizeLinesDiffer(rev, pkgs, r.Res); sl != nil {
+				tag, bad = "hit-without-signature-section", sl
+			}
+		}
 		desc["what"], desc["want"], desc["bad"] = what, want, bad
+		r.Res.InstalledDB = ""
+		desc["result"] = r.Res
 		d.violation(tag, desc)
 	}
+}
+
+// onlySizeLinesDiffer: the image differs from the reference ONLY in S: lines of
+// lib/apk/db/installed, each smaller by exactly the size of that package's
+// signature section — what cachedPackage produces when it finds the control
+// section, not (yet) the signature section, and then data and tar.
+func (d *driver) onlySizeLinesDiffer(rev int, pkgs []string, got workerResult) []string {
+	ref := d.refRes[fmt.Sprintf("%d|%s", rev, strings.Join(pkgs, ","))]
+	if ref.RestHash == "" || ref.RestHash != got.RestHash {
+		return nil
+	}
+	a, b := strings.Split(ref.InstalledDB, "\n"), strings.Split(got.InstalledDB, "\n")
+	if len(a) != len(b) {
+		return nil
+	}
+	sigSizes := map[int]bool{}
+	for _, bl := range d.w.revs[rev].repo.Built[arch] {
+		if bl.Sig != nil {
+			sigSizes[len(bl.Sig)] = true
+		}
+	}
+	var out []string
+	for i := range a {
+		if a[i] == b[i] {
+			continue
+		}
+		var x, y int
+		if _, err := fmt.Sscanf(a[i], "S:%d", &x); err != nil {
+			return nil
+		}
+		if _, err := fmt.Sscanf(b[i], "S:%d", &y); err != nil {
+			return nil
+		}
+		if !sigSizes[x-y] {
+			return nil
+		}
+		out = append(out, fmt.Sprintf("installed db line %d: %s instead of %s (signature section of %d bytes not counted)", i+1, b[i], a[i], x-y))
+	}
+	if len(out) == 0 {
+		return nil
+	}
+	return out
 }
 
 // checkOffline: same digest as SOME served revision (the newest cached index
@@ -142,6 +195,7 @@ func (d *driver) checkOffline(what string, pkgs []string, cache string, desc map
 	}
 	if !d.anyRef(pkgs, r.Res.Digest) {
 		tag, bad := d.triage(cache, "offline-digest-differs")
+		r.Res.InstalledDB = ""
 		dd := map[string]any{"what": what, "offline_result": r.Res, "bad": bad}
 		for k, v := range desc {
 			dd[k] = v
@@ -360,7 +414,7 @@ func (d *driver) runScenario(name, pkg string, builds []sbuild) {
 		terms = append(terms, fmt.Sprintf("{| b_idir := %s; b_etag := %s; b_pdir := %s; b_apk := %s; b_crash := %s |}",
 			gal.Str(idir), gal.Str(rev.b32), gal.Str(pdirOf(b)), apkTerm(b), sb.Crash.term()))
 		desc := map[string]any{"exp": "scenario", "name": name, "pkg": pkg, "builds": builds[:i+1], "hooks": append([]string{}, hooks...),
-			"killed": r.Killed, "result": r.Res}
+			"killed": r.Killed, "result": workerResult{OK: r.Res.OK, Digest: r.Res.Digest, DiffID: r.Res.DiffID, Err: r.Res.Err}}
 		if done {
 			// a build that ran to the end with the cache must equal the build without it
 			d.checkBuild("scenario "+name, sb.Rev, pk, cache, r, desc)
@@ -498,6 +552,17 @@ func (d *driver) stageForced() {
 		{"hold-A-at-pre-symlink/B-complete", "advertise.pre-symlink#2", "", ""},
 		// B is HELD inside the rebuild (empty file under the final name) while A finishes: no process is killed
 		{"hold-A-before-tar/B-held-in-rebuild", "pkg.post-advertise-dat#1", "", "rebuild.created#1"},
+	}
+	// needs the hook cached.after-sig-stat (fixes/hooks-c19-b.patch); without it B would not be held
+	if src, err := os.ReadFile(filepath.Join(os.Getenv("VERIF_REPO"), "pkg/apk/apk/implementation.go")); err == nil &&
+		strings.Contains(string(src), `verifhook.Point("cached.after-sig-stat")`) {
+		// A holds after advertising the control section; B's cachedPackage has seen control present and
+		// signature absent and is held there; A finishes (signature, data, tar advertised); B goes on: a HIT
+		// without the signature section
+		cases = append(cases, fc{"hold-A-after-ctl/B-held-after-sig-stat", "pkg.post-advertise-ctl#1", "", "cached.after-sig-stat#1"})
+		d.stats["forced_sig_race_replayed"] = true
+	} else {
+		d.stats["forced_sig_race_replayed"] = false
 	}
 	pk := []string{"solo"}
 	for _, c := range cases {
@@ -702,6 +767,10 @@ func main() {
 		workerMain(os.Args[2:])
 		return
 	}
+	if len(os.Args) > 1 && os.Args[1] == "-stress" {
+		stress()
+		return
+	}
 	out := flag.String("out", "", "cases dir")
 	seed := flag.Uint64("seed", 1, "seed")
 	tier := flag.String("tier", "quick", "tier")
@@ -715,7 +784,7 @@ func main() {
 		os.Exit(2)
 	}
 	defer w.close()
-	d := &driver{w: w, tier: *tier, rnd: gal.NewRand(*seed), refs: map[string]string{}, stats: map[string]any{}}
+	d := &driver{w: w, tier: *tier, rnd: gal.NewRand(*seed), refs: map[string]string{}, refRes: map[string]workerResult{}, stats: map[string]any{}}
 	d.tab, d.gz, d.dh = w.originTable()
 	d.out = &gal.Writer{Dir: *out, Type: "c19_case", Check: "check_c19", Shard: 40,
 		Require: "From Apko Require Import Corr.C19.\nOpen Scope string_scope. Open Scope list_scope.\n" +
@@ -744,4 +813,67 @@ func main() {
 	}
 	b, _ := json.Marshal(d.stats)
 	fmt.Printf("STAT %s\n", b)
+}
+
+// stress: manual diagnosis aid (not part of the check): k concurrent cold builders, many rounds
+func stress() {
+	w, err := newWorld(1)
+	if err != nil {
+		panic(err)
+	}
+	defer w.close()
+	pk := []string{"app", "plain", "solo"}
+	os.Setenv("C19_DUMP", "")
+	ref := w.run(runSpec{Pkgs: pk})
+	bad, nohit := 0, 0
+	for round := 0; round < 2500 && nohit < 1; round++ {
+		c := filepath.Join(w.root, fmt.Sprintf("sc-%d", round))
+		var wg sync.WaitGroup
+		outs := make([]runOut, 4)
+		for i := range outs {
+			wg.Add(1)
+			go func(i int) {
+				defer wg.Done()
+				cmd, resf := w.command(runSpec{Cache: c, Pkgs: pk, Trace: c + ".hooks"})
+				cmd.Env = append(cmd.Env, "C19_DUMP=/scratch/c19/dump/r"+fmt.Sprint(round))
+				t0 := time.Now()
+				cmd.Start()
+				outs[i] = finish(cmd, resf, t0)
+			}(i)
+		}
+		wg.Wait()
+		for i, o := range outs {
+			if o.Res.Digest != ref.Res.Digest {
+				bad++
+				hooks, _ := os.ReadFile(c + ".hooks")
+				n := strings.Count(string(hooks), "rebuild.created")
+				if n == 0 {
+					nohit++
+					os.WriteFile("/scratch/c19/dump/nohit.hooks", hooks, 0o644)
+					es, _ := listCache(c)
+					var sb strings.Builder
+					for _, e := range es {
+						fmt.Fprintf(&sb, "%s %s %s %d %.12s\n", e.Kind, e.Path, e.Target, e.Size, e.Hash)
+					}
+					os.WriteFile("/scratch/c19/dump/nohit.listing", []byte(sb.String()), 0o644)
+				}
+				o.Res.InstalledDB = ""
+				fmt.Printf("round %d builder %d: %+v\n  rebuild hits: %d\n", round, i, o.Res, n)
+			}
+		}
+		if nohit == 0 {
+			m, _ := filepath.Glob("/scratch/c19/dump/r" + fmt.Sprint(round) + ".*")
+			for _, f := range m {
+				os.Remove(f)
+			}
+		}
+		os.RemoveAll(c)
+	}
+	os.Setenv("C19_DUMP", "/scratch/c19/dump/ref")
+	cmd, resf := w.command(runSpec{Pkgs: pk})
+	cmd.Env = append(cmd.Env, "C19_DUMP=/scratch/c19/dump/ref")
+	t0 := time.Now()
+	cmd.Start()
+	finish(cmd, resf, t0)
+	fmt.Println("ref", ref.Res.Digest, "bad", bad)
 }
